@@ -383,7 +383,11 @@ func (c *Ctx) compare(op token.Token, t types.Type, x, y string) string {
 	if isString(t) {
 		f := "gstr_lt"
 		c.declareFun(f, []string{"Str", "Str"}, "Bool")
-		c.note("string ordering is an uninterpreted strict order")
+		c.note("string ordering is an uninterpreted strict total order")
+		if c.inQuant == 0 {
+			// trichotomy for the two operands
+			c.assume(and(or(sx(f, x, y), eq(x, y), sx(f, y, x)), not(and(sx(f, x, y), sx(f, y, x))), not(sx(f, x, x))))
+		}
 		switch op {
 		case token.LSS:
 			return sx(f, x, y)
